@@ -9,6 +9,7 @@ verus! {
 //@include prelude/bw.rs
 use http::{HeaderMap, HeaderName, HeaderValue, HV, Method};
 use http::header;
+broadcast use http::lemma_without_push;
 pub mod mem { pub use std::mem::{take, replace}; }
 pub mod body {
     use vstd::prelude::*;
@@ -139,6 +140,12 @@ impl StreamingBodyBuilder {
             /*@C17 #content_encoding_iff_negotiated*/ r.0.extra.appended@ =~= (if self.should_gzip && self.gzip_level > 0 {
                     seq![(HeaderName::VARY, HV::Static("accept-encoding"@)), (HeaderName::CONTENT_ENCODING, HV::Static("gzip"@))]
                 } else { seq![(HeaderName::VARY, HV::Static("accept-encoding"@))] }),
+            /*@C17 #get_headers*/ self.body_needed ==> r.0.extra.appended@ =~= (if self.should_gzip && self.gzip_level > 0 {
+                    seq![(HeaderName::VARY, HV::Static("accept-encoding"@)), (HeaderName::CONTENT_ENCODING, HV::Static("gzip"@))]
+                } else { seq![(HeaderName::VARY, HV::Static("accept-encoding"@))] }),
+            /*@C15 #head_headers_as_get unless=get_headers*/ !self.body_needed ==> r.0.extra.appended@ =~= (if self.should_gzip && self.gzip_level > 0 {
+                    seq![(HeaderName::VARY, HV::Static("accept-encoding"@)), (HeaderName::CONTENT_ENCODING, HV::Static("gzip"@))]
+                } else { seq![(HeaderName::VARY, HV::Static("accept-encoding"@))] }),
             /*@C17 #writer_coding_matches_header*/ r.1 matches Some(w) ==> (if self.should_gzip && self.gzip_level > 0 { w.0 matches Inner::Gzipped(g) && g.level() == self.gzip_level } else { w.0 is Raw }),
             /*@C15 #no_writer_for_head*/ r.1.is_some() == self.body_needed,
             /*@C15,C17 #status_and_builder_headers*/ r.0.v@.status == 200 && r.0.v@.hdrs.len() == 0,
@@ -150,6 +157,7 @@ impl StreamingBodyBuilder {
     //@end
 }
 
+//@auto_helpers src/lib.rs src/gzip.rs rules=T_bw
 //@canary_false
 } // verus!
 fn main() {}
